@@ -25,14 +25,25 @@ def run(ctx):
     spawns = [(fn, t, cor) for fn, t, cor in idx.spawn_sites() if fn.path.startswith("wtransport::")]
     ctx.floor("C07-R1", "spawn sites", len(spawns), 3)
     ntask = 0
+    cands = {}
     for fn, t, cor in spawns:
         if cor is None or cor not in idx.coros:
             ctx.violation("C07-R1", "spawn@%s|unresolved" % short_chain([fn.path]), "cannot decide: spawned future type is not a local coroutine", fn.at)
             continue
+        for d in idx.awaited_local(cor):
+            cands.setdefault(d, "task spawned in " + short_chain([fn.path]))
+    # the worker loop itself: every future polled by its select! (dropped / stalled together)
+    wl = "wtransport::driver::worker::Worker::run_impl::{closure#0}"
+    for d in idx.awaited_local(wl):
+        if d != wl:
+            cands.setdefault(d, "worker select-loop branch")
+    for cor, origin in sorted(cands.items()):
         task = idx.coros[cor]
         ntask += 1
         tname = short_chain([cor])
         for s in task.susp:
+            if s.is_select:
+                continue
             held = s.held_types()
             res = []
             for name, ty in held:
@@ -43,20 +54,21 @@ def run(ctx):
             peer = idx.classify(aw["ty_j"], "peer") if aw else [("unknown", ["no awaitee"])]
             hits = [c for k, c in peer if k == "hit"]
             unk = [c for k, c in peer if k == "unknown"]
-            ctx.sample({"rule": "C07-R1", "task": tname, "at": s.where, "holds": [(n, r.split("::")[-1]) for n, r in res],
-                        "awaits": ty_short(aw["ty_j"]) if aw else None, "peer_paced_via": [short_chain(c)[-120:] for c in hits][:3]})
+            if res:
+                ctx.sample({"rule": "C07-R1", "coroutine": tname, "origin": origin, "at": s.where, "holds": [(n, r.split("::")[-1]) for n, r in res],
+                            "awaits": ty_short(aw["ty_j"]) if aw else None, "peer_paced_via": [short_chain(c)[-120:] for c in hits][:3]})
             if not res:
                 ctx.ok("C07-R1", "%s|susp%d" % (tname, s.variant))
                 continue
             if unk and not hits:
                 ctx.violation("C07-R1", "%s|holds=%s|unclassified=%s" % (tname, res[0][1].split("::")[-1], short_chain(unk[0])),
-                              "cannot decide: task holds %s across an unclassified future" % res, s.where)
+                              "cannot decide: %s holds %s across an unclassified future" % (tname, res), s.where)
             if hits:
                 callee = short_chain([aw["ty_j"].get("did", "?")])
                 for name, r in res:
                     ctx.violation("C07-R1", "%s|holds=%s:%s|across=%s" % (tname, name, r.split("::")[-1], callee),
-                                  "spawned task %s owns `%s` (%s: %s) while awaiting %s, which completes only when the peer sends on this one stream (%s)"
-                                  % (tname, name, r, RESOURCES[r], callee, short_chain(hits[0])), s.where)
+                                  "%s (%s) owns `%s` (%s: %s) while awaiting %s, which completes only when the peer sends on this one stream (%s)"
+                                  % (tname, origin, name, r, RESOURCES[r], callee, short_chain(hits[0])), s.where)
             elif not unk:
                 ctx.ok("C07-R1", "%s|susp%d" % (tname, s.variant))
     ctx.count("spawned_tasks", ntask)
